@@ -71,6 +71,14 @@ ASSUMPTIONS = [
     "them: ascending for net.cell(list) (whatever the order of the list), as given for net.select(nodes=...)",
     "'post site equals the compartment the oracle chose' is read as equality of multisets (which draw serves which pair "
     "is not prescribed); the multiset of (pre cell, post cell) pairs is compared exactly",
+    "that rule (and the planner's leaf counts) rest on a model of which draws the builders make; a builder that draws "
+    "differently (e.g. branch first, then a uniform location) is not an error: the rule is skipped, the coverage predicate "
+    "draw_model_mismatch is recorded, the real tree of draws is explored model-free (complete up to the cap, deviation-bounded "
+    "beyond) and all other rules are applied. Continuous draws are explored on the quantile grid {0, .25, .5, .75, 1-2^-53}, "
+    "integer ranges above 16 values on both ends, their neighbours and the middle, permutations above 4 elements on the "
+    "identity and the single transpositions",
+    "sparse_connect: the intended cells of a connection are the (pre, post) cells that were drawn for it (checked when the "
+    "cell-level draws binomial / pre cells / post cells are recognisable)",
     "sparse_connect: the property only asks for pairs inside pre x post and for success; additionally the number of "
     "new synapses must equal the binomial answer",
     "self connections (a cell in both populations) are pairs like any other",
